@@ -263,6 +263,9 @@ pub fn k_rules(ty: &str, field: &str, args: &IndexMap<String, CV>, child: u64) -
     })
 }
 
+/// the fields of K whose rule reads (all of) the field's arguments
+const RULES_READING_ARGUMENTS: [(&str, &str); 8] = [("Query", "byIds"), ("Shop", "items"), ("Shop", "flag"), ("Item", "price"), ("Item", "parts"), ("Query", "shops"), ("Query", "items"), ("Query", "grid")];
+
 #[derive(Clone, Copy, Debug, PartialEq)]
 pub enum Lim {
     Depth(usize),
@@ -354,7 +357,7 @@ fn classify(c: Case, m: &Measures, st: &DocStats) -> Case {
         .class_if(m.custom_rules_var_arg > 0, "custom-rule-variable-argument")
         .class_if(m.custom_rules_default_arg > 0, "custom-rule-default-argument")
         .class_if(m.nesting_via_named, "nesting-through-named-fragment")
-        .class_if(m.field_directives_in_named, "most-directives-in-named-fragment")
+        .class_if(m.field_directives > 0 && m.field_directives_in_named, "most-directives-in-named-fragment")
         .class_if(m.field_directives >= 3, "field-directives>=3")
         .class_if(st.vars_omitted > 0, "omitted-variable")
         .class_if(st.repeated_keys > 0, "repeated-key")
@@ -623,24 +626,23 @@ fn verdict(rendered: String, r: Result<u32, String>) -> Case {
 
 /// C10-F1: a complexity rule reads an argument bound to a variable that the request omits and that has no default
 /// of its own: instead of the argument's default value the rule gets an error, and the request is rejected under
-/// every complexity limit (and without one).
-fn f1_applies(doc: &Doc, op: &OpDef, sch: &Sch, vars: &IndexMap<String, CV>, rules: Rules<'_>) -> bool {
-    fn go(doc: &Doc, sch: &Sch, set: &SelSet, parent: &str, omitted: &[String], rules: Rules<'_>, depth: usize) -> bool {
+/// every complexity limit (and without one). True when the operation contains such a field.
+fn f1_applies(doc: &Doc, op: &OpDef, sch: &Sch, vars: &IndexMap<String, CV>) -> bool {
+    fn go(doc: &Doc, sch: &Sch, set: &SelSet, parent: &str, omitted: &[String], depth: usize) -> bool {
         set.items.iter().any(|it| match it {
             Selection::Field(f) => {
                 let fd = match sch.field(parent, &f.name.s) {
                     Some(fd) => fd,
                     None => return false,
                 };
-                let declares_rule = rules(parent, &f.name.s, &vgql::coerce::coerce_arguments(sch, fd, &[], &IndexMap::new()).unwrap_or_default(), 0).is_some();
-                (declares_rule && f.args.iter().any(|(_, v)| matches!(&v.v, Val::Var(n) if omitted.contains(n)))) || go(doc, sch, &f.sel, fd.ty.base(), omitted, rules, depth)
+                (RULES_READING_ARGUMENTS.contains(&(parent, f.name.s.as_str())) && f.args.iter().any(|(_, v)| matches!(&v.v, Val::Var(n) if omitted.contains(n)))) || go(doc, sch, &f.sel, fd.ty.base(), omitted, depth)
             }
-            Selection::Inline(i) => go(doc, sch, &i.sel, i.cond.as_ref().map(|c| c.s.as_str()).unwrap_or(parent), omitted, rules, depth),
-            Selection::Spread(sp) => depth < 16 && doc.frag(&sp.name.s).map_or(false, |fr| go(doc, sch, &fr.sel, &fr.cond.s, omitted, rules, depth + 1)),
+            Selection::Inline(i) => go(doc, sch, &i.sel, i.cond.as_ref().map(|c| c.s.as_str()).unwrap_or(parent), omitted, depth),
+            Selection::Spread(sp) => depth < 16 && doc.frag(&sp.name.s).map_or(false, |fr| go(doc, sch, &fr.sel, &fr.cond.s, omitted, depth + 1)),
         })
     }
     let omitted: Vec<String> = op.vars.iter().filter(|v| v.default.is_none() && !vars.contains_key(&v.name.s)).map(|v| v.name.s.clone()).collect();
-    !omitted.is_empty() && go(doc, sch, &op.sel, sch.root(op.kind).unwrap_or(""), &omitted, rules, 0)
+    !omitted.is_empty() && go(doc, sch, &op.sel, sch.root(op.kind).unwrap_or(""), &omitted, 0)
 }
 
 pub fn run(ctx: &mut Ctx) {
@@ -707,8 +709,7 @@ pub fn run(ctx: &mut Ctx) {
     if f1 {
         let mut pcfg = cfg_k.clone();
         pcfg.omitted_var_with_arg_default = true;
-        ctx.stream("probe-omitted-variable-in-rule", n / 4, 600, |s| {
-            let mut td = gen_typed_doc(&ksch, s, &pcfg);
+        let probe = |mut td: TypedDoc| -> Case {
             if !strip_typename(&mut td) {
                 return Case::discard("nothing but __typename");
             }
@@ -718,14 +719,14 @@ pub fn run(ctx: &mut Ctx) {
             };
             let rendered = format!("schema K\nquery: {}\nvariables: {}\nreference: {}", p.text, vars_json(&p.vars), show_m(&p.m));
             let op = td.doc.ops().next().unwrap();
-            let applies = f1_applies(&td.doc, op, &ksch, &td.vars, &k_rules);
+            let applies = f1_applies(&td.doc, op, &ksch, &td.vars);
             let c = match enforce(&ALL3, &p.m, false, &|l| run_k(&p, l)) {
                 Ok(_) => Case::pass(rendered),
                 Err(why) => {
-                    // the quirk: rejected under every limit, with the rule's error
+                    // the quirk: rejected under every limit, with the rule's error about the variable
                     let always = [Lim::Complexity(usize::MAX), Lim::Depth(usize::MAX)].iter().all(|l| {
                         let o = run_k(&p, *l);
-                        o.rejected() && o.errors.iter().any(|e| e.contains("is not defined"))
+                        o.rejected() && o.errors.iter().any(|e| e.starts_with("Variable ") && e.ends_with(" is not defined."))
                     });
                     if applies && always {
                         Case::known(rendered, vec!["C10-F1".into()])
@@ -735,7 +736,15 @@ pub fn run(ctx: &mut Ctx) {
                 }
             };
             classify(c, &p.m, &td.stats).class_if(applies, "rule-argument-bound-to-omitted-variable")
-        });
+        };
+        // the minimised witness
+        let text = "query($v0: Int) { items(first: $v0) { id } }";
+        let doc = vgql::refparse::parse_executable(text, &vgql::refparse::Opts::default()).expect("witness parses");
+        let c = probe(TypedDoc { doc, vars: IndexMap::new(), stats: DocStats::default(), op_name: None });
+        if ctx.check_case("witness-omitted-variable-in-rule", c, serde_json::json!({"query": text, "variables": {}})) {
+            return;
+        }
+        ctx.stream("probe-omitted-variable-in-rule", n / 4, 600, |s| probe(gen_typed_doc(&ksch, s, &pcfg)));
     }
 
     // (b) Z
